@@ -62,6 +62,9 @@ def steps_from_labels(labels, ntasks):
             if name in started:
                 continue
             started.add(name)
+        if label == "ia_unlock":
+            # the model's step "erase / unlock" starts where InvalidateAll has replayed the write buffer and is about to discard the entries
+            steps.append({"g": name, "at": "ia.drained"})
         steps.append({"g": name, "at": hook})
     return steps
 
@@ -84,7 +87,9 @@ CEX_RE = re.compile(r"^State \d+: <(\w+)\((\d+)\) line", re.M)
 # adversarial models: Drop = {site}; (site, holder kind); each must violate NoStranded
 ADVERSARIAL = [("db_lock", "none"), ("db_token", "none"), ("pc", "none"), ("saw_cas", "none"), ("mt_cas", "none"),
                ("sm_maint", "getmax"), ("sm_rs", "getmax"), ("cleanup", "cleanup"), ("db_lock", "reader"), ("db_token", "cleanup"),
-               ("pc", "getmax")]
+               ("pc", "getmax"),
+               # a wrong protocol rather than a missing site: InvalidateAll erases the Required mark of a write before it unlocks
+               ("ia_mark", "invalidateAll")]
 
 
 def adversarial_script(work, site, kind, writers, nwrites, ntasks, workers=2):
